@@ -6,6 +6,7 @@
   uncertainties, correlations) only.
 -/
 import QExPy.Props.C05
+import QExPy.Generated.Session
 set_option linter.unusedSectionVars false
 
 namespace QExPy
@@ -47,6 +48,18 @@ theorem C15_dispatch (w : World α) (n : Nat) (nd : Node α) (hn : w.nodes[n]? =
     | none => exact ⟨(w.fresh n).1, (w.fresh n).2, by simp [step, hn, hm, hc]⟩
   · intro hm
     exact ⟨(w.ensureSim n).2, by simp [step, hn, hm]⟩
+
+/-- **C15 (tie of the selection rule).** The effective method of the model is what the
+    `error_method` getter of the working tree computes (regenerated as `Gen.effMethodOf`): the
+    quantity's own selection, or the global setting while the AUTO marker is stored. -/
+theorem C15_effMethod_tie (w : World α) (n : Nat) (nd : Node α) (hn : w.nodes[n]? = some nd) :
+    w.effMethod n = Gen.effMethodOf nd.method w.globalMethod := by
+  simp only [effMethod, hn, Gen.effMethodOf]
+  cases nd.method <;> rfl
+
+/-- non-vacuity: with the AUTO marker stored the two selections differ exactly by the global one -/
+example : Gen.effMethodOf (none : Option Method) .monteCarlo = .monteCarlo ∧
+    Gen.effMethodOf (some Method.derivative) .monteCarlo = .derivative := by decide
 
 /-! ### non-interference -/
 
